@@ -359,6 +359,9 @@ def group_observations(results: list) -> dict:
     return groups
 
 
+UNJUDGED_KEYS: list = []  # probe keys (simplify / remove_singularities / save bytes) that diverged: reported, never judged
+
+
 def find_violations(groups: dict) -> tuple[list, int]:
     """Keys with more than one digest.  Returns (judged violations, unjudged divergences)."""
     viols = []
@@ -370,6 +373,8 @@ def find_violations(groups: dict) -> tuple[list, int]:
             continue
         if not all(o["judged"] for o in obs_list):
             unjudged += 1
+            UNJUDGED_KEYS.append({"key": key[:160], "digests": len(digests),
+                                  "hash_keys": sorted({o["hash_key"] for o in obs_list})[:4]})
             continue
         by_digest = {}
         for o in obs_list:
@@ -821,6 +826,7 @@ def summarise(pool, plans, results, groups, viols, unjudged, tier, seed, wall, e
         "probes": probes,
         "workload_blind_spots": blind,
         "unjudged_divergences": unjudged,
+        "unjudged_divergent_keys": UNJUDGED_KEYS[:10],
         "canonical_event_log_sha256": core.canonical_log(results),
         "lives_per_hour": round(lives_per_hour),
         "ops_per_hour": round(n_ops / wall * 3600) if wall > 0 else 0,
